@@ -317,6 +317,19 @@ func (in *Interp) tzOffset() int64 {
 }
 
 func init() {
+	// naturaldate.Parse(text, ref): whatever natural-language date the library reads, relative to
+	// ref: an arbitrary instant (uninterpreted in the text and ref), without error
+	externals["github.com/tj/go-naturaldate.Parse"] = func(in *Interp, fr *frame, args []value) value {
+		in.path.nowN++
+		sec := in.tb.Var(fmt.Sprintf("|naturaldate!%d|", in.path.nowN), SBV64)
+		in.assume(in.tb.BVSLe(in.tb.BV(SBV64, 1), sec))
+		in.assume(in.tb.BVSLt(sec, in.tb.BV(SBV64, 315537897600)))
+		in.path.labels["naturaldate"] = "a date was read by go-naturaldate relative to the wall clock"
+		return tuple{in.mkTime(in.tb.BV(SBV64, 0), sec), nilError()}
+	}
+}
+
+func init() {
 	// Time.Sub on symbolic instants multiplies 64-bit values by 10^9 and branches on overflow
 	// checks: out of reach for bit-blasting (probe: unknown at 60 s in all three back ends).
 	// Contract stub: an uninterpreted function of the two instants; day distances computed
